@@ -35,6 +35,13 @@ func init() {
 		id := fmt.Sprintf("C%02d", i)
 		Plans[id] = &PropertyPlan{ID: id, Prefixes: []string{"H_" + id + "_"}, QuickSec: 200, ThoroSec: 1500}
 	}
+	Plans["C01"].QuickSec = 330
+	Plans["C03"].QuickSec = 300
+	Plans["C12"].QuickSec = 300
+	Plans["C15"].QuickSec = 300
+	for _, p := range Plans {
+		p.ThoroSec = 3000
+	}
 	Plans["C03"].Panic = true
 	Plans["C06"].Shared = true
 	Plans["C07"].Shared = true
